@@ -231,8 +231,9 @@ func checkC12(c *Ctx, w *World) {
 		}
 		// SendMsg delegates the same message on every non-error path, returns creation error otherwise
 		okDel := true
-		for _, r := range returnsOf(send) {
-			res := r.Results[0]
+		for _, vr := range newCondSpace(send, nil).VirtualReturns() {
+			// (a merged `initErr := …; if initErr != nil { return initErr }` is split per way of arriving)
+			res := stripConv(vr.Vals[0])
 			if isExtractOf(res, create, 1) {
 				continue
 			}
@@ -311,7 +312,14 @@ func checkC12(c *Ctx, w *World) {
 			continue
 		}
 		// or: the call's context ended while waiting — the context's own error (as a status), only when ctx.Err() != nil
-		if ctxErrCall := contextErrOf(res); ctxErrCall != nil {
+		// (a value merged from several branches is resolved to what it is on the ways that reach this return)
+		resolve := func(v ssa.Value) ssa.Value {
+			if rs := rcs.ResolveUnder(v, rcs.Reach(r)); len(rs) == 1 {
+				return oneOrigin(rs[0])
+			}
+			return oneOrigin(v)
+		}
+		if ctxErrCall := contextErrOf(res, resolve); ctxErrCall != nil {
 			f, base, ok := loadedField(ctxErrCall.Call.Value)
 			imp, _ := rcs.Implies(rcs.Reach(r), rcs.Not(rcs.Atom("ctxAlive")))
 			if !ok || f != "gcpClientStream.ctx" || !isParamValue(base, r0) || !imp {
@@ -440,8 +448,8 @@ func isParamValue(v ssa.Value, prm *ssa.Parameter) bool {
 }
 
 // contextErrOf: v is ctx.Err() or status.FromContextError(ctx.Err()).Err(); returns the ctx.Err() call.
-func contextErrOf(v ssa.Value) *ssa.Call {
-	v = stripConv(oneOrigin(v))
+func contextErrOf(v ssa.Value, resolve func(ssa.Value) ssa.Value) *ssa.Call {
+	v = stripConv(resolve(v))
 	call, ok := v.(*ssa.Call)
 	if !ok {
 		return nil
@@ -451,7 +459,7 @@ func contextErrOf(v ssa.Value) *ssa.Call {
 	}
 	if c2, isS := staticCallNamed(v, "status.(*Status).Err"); isS {
 		if c3, isF := staticCallNamed(stripConv(c2.Call.Args[0]), "status.FromContextError"); isF {
-			return contextErrOf(c3.Call.Args[0])
+			return contextErrOf(c3.Call.Args[0], resolve)
 		}
 	}
 	return nil
